@@ -130,15 +130,6 @@ theorem sdStep_quad_second (mode : SDMode) (hm : (mode.avgKernel : Option (K × 
 
 /-! ### difference operators along different axes commute (any field, any point) -/
 
-theorem setIdx_comm (idx : Idx D) {a b : Fin D} (hab : a ≠ b) (k l : Int) :
-    setIdx (setIdx idx a k) b l = setIdx (setIdx idx b l) a k := by
-  funext j
-  by_cases hja : j = a
-  · subst hja; simp [setIdx, hab]
-  · by_cases hjb : j = b
-    · subst hjb; simp [setIdx, hja]
-    · simp [setIdx, hja, hjb]
-
 /-- every scheme reads two samples whose positions depend only on (mode, n, dil, k):
     `finiteDifferences … f k = (f (P k) − f (M k)) / (h · C k)`. -/
 theorem fd_two_point (mode : FDMode) (n dil : Nat) :
